@@ -368,7 +368,7 @@ def catalogue_c11(seed, tier, rng):
     c.add("generators", "perlin", [t8], {"seed": 5, "freq": (2, 3)}, identity="own", heavy=True)
     c.add("generators", "perlin", [t4], {"seed": 5}, backend="dask", identity="own", heavy=True,
           chunks={t4: [[3, 3], [4, 4]]})
-    for sd, zf_ in ((10, 4000), (3, 4000), (10, 100)):
+    for sd, zf_ in ((10, 4000), (300, 4000), (10, 100), (7700, 4000)):
         c.add("generators", "generate_terrain", [t8], {"seed": sd, "zfactor": zf_}, identity="own", heavy=True)
     c.add("generators", "generate_terrain", [t9], {"seed": 10, "zfactor": 4000}, identity="own", heavy=True)
     c.add("generators", "generate_terrain", [t8], {"seed": 10, "zfactor": 4000, "x_range": (0, 100),
